@@ -149,6 +149,24 @@ def ScopedArgs (c : Cfg) : List PExpr → Bool
       | _ => Scoped c a) && ScopedArgs c as
 end
 
+/- `Clean c e`: `e` stays out of the four classes of inputs on which the code is known to be wrong
+(`round`: refused; `remquo`: needs an `int*`; `ilogb`: declared `double`, returns `int`; `abs` of
+integers only: `std::abs(int)` is `int`) and has no `float` operand (single precision is outside
+the abstraction). -/
+mutual
+def Clean (c : Cfg) : PExpr → Bool
+  | .leaf _ ty => ty != "float"
+  | .call f args =>
+    !(f ∈ ["round", "remquo", "ilogb"]) &&
+    (f != "abs" || (args.map (argTy c)).isEmpty || !(args.map (argTy c)).all (· == .int)) &&
+    CleanArgs c args
+  | .bin _ l r => Clean c l && Clean c r
+  | .un _ e => Clean c e
+def CleanArgs (c : Cfg) : List PExpr → Bool
+  | [] => true
+  | a :: as => Clean c a && CleanArgs c as
+end
+
 /-- the configuration facts the expression theorems need: the operator tables give the arithmetic
 operators their usual C++ symbols (and have no entry for `Pow`, which is special-cased), and `int`
 ranks below `double` -/
